@@ -671,6 +671,14 @@ func runC14(c *Ctx) {
 		}
 		a, _ := wire.Parse(before)
 		b, _ := wire.Parse(after)
+		// the model of the transport (Codec/Gob.lean) must predict the encoding after from the encoding before
+		if c.Driver != "" && c.HasOp("gob") {
+			if a.InModel() {
+				c.Corr(map[string]interface{}{"op": "gob", "kind": kind, "doc": a.Wire()}, string(after), "json", cs)
+			} else {
+				c.Res.OutOfModel++
+			}
+		}
 		if a.Canon() == b.Canon() {
 			c.Hit("ok")
 			return
